@@ -3,6 +3,7 @@
 # VERIF_REPO; /repo itself is never patched).  Writes seeded/KILL_MATRIX.txt: <id> <check> caught|MISSED|tool-failure
 cd "$(dirname "$0")/.."
 P=${1:-6}
+ONLY=${2:-}
 one() {
   id=$1; prop=$(python3 -c "import json;print(json.load(open('seeded/$id/meta.json'))['property'])")
   W=/tmp/seedrun_$id; rm -rf $W
@@ -16,5 +17,12 @@ one() {
   elif [ $rc -eq 0 ]; then echo "$id $prop MISSED"; else echo "$id $prop tool-failure rc=$rc"; fi
 }
 export -f one
-ls seeded | grep -v -e gitkeep -e KILL | xargs -P $P -I{} bash -c 'one {}' | sort > seeded/KILL_MATRIX.txt
+if [ -n "$ONLY" ]; then
+  # re-run only the given ids (comma separated) and merge into the matrix
+  echo "$ONLY" | tr ',' '\n' | xargs -P $P -I{} bash -c 'one {}' | sort > /tmp/kill_part.txt
+  grep -v -F -f <(awk '{print $1" "}' /tmp/kill_part.txt) seeded/KILL_MATRIX.txt > /tmp/kill_rest.txt
+  cat /tmp/kill_rest.txt /tmp/kill_part.txt | sort > seeded/KILL_MATRIX.txt
+else
+  ls seeded | grep -v -e gitkeep -e KILL | xargs -P $P -I{} bash -c 'one {}' | sort > seeded/KILL_MATRIX.txt
+fi
 cat seeded/KILL_MATRIX.txt | awk '{print $3}' | sort | uniq -c
